@@ -218,6 +218,7 @@ def run(chk):
                        'P_RAM parameter (S_a x S_m sign/zero cases at M_sigma = 1/4), hysteresis tables of up to MaxRows rows (closed/half, pass 1/2, N = 1000*2^e) for the accumulation, '
                        'and (beta, P_L) for the safety factors; every state is evaluated through the real accessors / classes with exact expectation. '
                        'Non-trivial: accumulation tables with a half hysteresis and no early failure; every other lattice point.')
+    chk.cov['rule'] += ' Accumulation tables allow half hystereses in both passes; very flat curves (|d| = 0.004); two-point batches (point B = point A at half the damage parameter, both orders); compute_beta swept over 1e-12..0.5 in three call orders.'
     chk.cov['exhaustive'] = True
     chk.assumptions += ['compute_beta (root search of the normal CDF) is only spot-checked numerically: no lattice exists for it',
                         'P_RAJ damage accumulation (crack opening loop) is not modelled; it is exercised through C10']
